@@ -18,7 +18,7 @@ import lena.structures
 import lena.variables
 
 from ..kernel import RunResult, StepBudget, StepBudgetExceeded, summarize, exception_origin
-from ..seams.flow import ProbeFC
+from ..seams.flow import ProbeFC, RaisesAt, Numbering
 
 PROPERTY = "C05"
 LEVEL = "exploration"
@@ -47,10 +47,12 @@ ASSUMPTIONS = [
     "Count is used only behind the FillCompute adapter (a bare Count in a Sequence is by "
     "documentation a streaming element)",
 ]
-FAULT_KINDS = ["LenaStopFill-from-Slice-mid-flow", "accumulator-exception", "ill-typed-adapter-argument"]
+FAULT_KINDS = ["LenaStopFill-from-Slice-mid-flow", "accumulator-exception", "ill-typed-adapter-argument",
+               "pre-element-raises-lena-exception"]
 EXPECTED_PROBES = ["slice-stops-before-flow-end", "slice-stop-inside-split-block", "runif-selected",
                    "filter-rejects", "split-multi-block", "sibling-stops-mid-flow", "watchdog-armed", "adapter-renamed-method",
-                   "adapter-ill-typed", "adapter-decoy-standard-method"]
+                   "adapter-ill-typed", "adapter-decoy-standard-method",
+                   "deep-copied-sequence-with-stateful-element"]
 
 ACCS = ["sum", "dsum", "mean", "mean-pass", "mean-sumseq", "vmc", "vectorize", "store",
         "store-items", "groupby", "histogram", "count", "probe"]
@@ -107,6 +109,14 @@ def gen_scenario(tape):
     # None is a value like any other and must reach the accumulator in every regime
     if sc.acc in ("store", "store-items", "count", "probe") and tape.chance(1, 4, "callable-returns-None"):
         sc.pre.append(("callnone", tape.draw(8, "pred")))
+    # a callable that raises a Lena exception other than LenaStopFill at its k-th call: it must
+    # surface in every regime (only LenaStopFill means "this branch has enough")
+    if tape.chance(1, 8, "pre-element-raises-lena-exception"):
+        sc.pre.append(("callraise", tape.draw(6, "raise-at"), tape.choice(["LenaKeyError", "LenaValueError"], "exc")))
+    # a stateful callable: a deep copy of the sequence must work on its own copy of it
+    if sc.acc in ("store", "store-items", "count", "probe") and not any(st[0] in ("callnone", "callraise") for st in sc.pre) \
+            and tape.chance(1, 6, "stateful-callable"):
+        sc.pre.append(("callcount",))
     # a callable whose result is a generator object: that object is the value, in every regime
     if sc.acc in ("store", "store-items", "count", "probe") and not any(st[0] == "callnone" for st in sc.pre) \
             and tape.chance(1, 6, "callable-returns-generator"):
@@ -262,12 +272,19 @@ def make_chain(sc, fills):
             els.append(lambda v, f=f: mapd(v, f))
         elif st[0] == "variable":
             f = FNS[st[1]]
+            # keyword arguments of a Variable become its attributes: "run" (say, a run number) is
+            # data, not a method
+            extra = {"run": 2021} if (j + st[1]) % 2 else {}
             els.append(lena.variables.Variable(
-                "v%d" % j, lambda d, f=f: tuple(f(x) for x in d) if isinstance(d, tuple) else f(d)))
+                "v%d" % j, lambda d, f=f: tuple(f(x) for x in d) if isinstance(d, tuple) else f(d), **extra))
         elif st[0] == "callnone":
             els.append(lambda v, p=PREDS[st[1]]: None if p(v) else v)
         elif st[0] == "callgen":
             els.append(lambda v: (x for x in (v, v)))
+        elif st[0] == "callraise":
+            els.append(RaisesAt(getattr(lena.core, st[2]), st[1]))
+        elif st[0] == "callcount":
+            els.append(Numbering())
         elif st[0] == "filter":
             els.append(lena.flow.Filter(PREDS[st[1]]))
         elif st[0] == "slice":
@@ -414,6 +431,25 @@ def blocked(sc):
     return fn
 
 
+def push_on_deepcopy(sc):
+    """a deep copy of the FillComputeSeq is driven first, the original afterwards: each must behave
+    like a fresh instance (Vectorize, SplitIntoBins copy sequences this way)"""
+    def fn(r):
+        chain = make_chain(sc, [])
+        seq = lena.core.FillComputeSeq(*chain)
+        cp = copy.deepcopy(seq)
+        outs = []
+        for s_ in (cp, seq):
+            for v in make_flow(sc):
+                try:
+                    s_.fill(v)
+                except lena.core.LenaStopFill:
+                    break
+            outs.append(list(s_.compute()))
+        return outs[0] + ["<then the original>"] + outs[1]
+    return fn
+
+
 def run(tape):
     res = RunResult()
     sc = gen_scenario(tape)
@@ -452,6 +488,8 @@ def run(tape):
             res.probe("sibling-stops-mid-flow")
     if base.exc:
         res.fault("accumulator-exception")
+    if any(st[0] == "callraise" and st[1] < sc.n for st in sc.pre):
+        res.fault("pre-element-raises-lena-exception")
     for r in regimes:
         if r.hang:
             res.viol("C05:%s:%s:does-not-terminate" % (culprit(sc, base, r, "hang"), r.name),
@@ -473,6 +511,15 @@ def run(tape):
         if r.out != base.out:
             res.viol("C05:%s:pull-vs-%s:outputs-differ" % (culprit(sc, base, r, "out"), r.name),
                      "pull yields %r, %s yields %r" % (base.out, r.name, r.out))
+            return res
+    if any(st[0] == "callcount" for st in sc.pre) and base.exc is None and not res.violations:
+        res.probe("deep-copied-sequence-with-stateful-element")
+        r = drive("push-on-deepcopy", sc, push_on_deepcopy(sc), res)
+        exp = base.out + ["<then the original>"] + base.out
+        if r.exc is not None or r.out != exp:
+            res.viol("C05:stateful-callable:deep-copied-sequence-shares-state-with-the-original",
+                     "a deep copy of the FillComputeSeq and then the original were filled with the same "
+                     "flow; each should yield %r, they yielded %r (exception %s)" % (base.out, r.out, r.exc))
             return res
     return res
 
@@ -503,7 +550,9 @@ def culprit(sc, base, r, what):
                 return {"call": "callable", "variable": "Variable", "filter": "Filter",
                         "slice": "Slice", "runif": "RunIf",
                         "callnone": "callable-returning-None",
-                        "callgen": "callable-returning-a-generator"}[sc.pre[j - 1][0]]
+                        "callgen": "callable-returning-a-generator",
+                        "callraise": "callable-raising-a-Lena-exception",
+                        "callcount": "stateful-callable"}[sc.pre[j - 1][0]]
     if what == "out" and sc.post:
         return "post-" + sc.acc
     return "acc-" + sc.acc
